@@ -386,6 +386,48 @@ func genC09(r *Rng, tier string, i int) map[string]any {
 		}
 		inserted = append(inserted, map[string]any{"file": file, "cause": b.cause, "at": pos, "run": run})
 	}
+	// a trip whose rows are in order but for ONE descent, and a rejected row of that trip exactly at the descent, with a
+	// sequence number at or below its successor's: the only hint that the trip needs sorting passes through a rejected row
+	if r.P(1, 3) {
+		stt := g.tables["stop_times.txt"]
+		ft := f.tables["stop_times.txt"]
+		byTrip := map[string][]int{}
+		for i, row := range stt.rows {
+			byTrip[row[0]] = append(byTrip[row[0]], i)
+		}
+		var cands []string
+		for id, idx := range byTrip {
+			if len(idx) >= 3 && len(idx) == len(byTripRows(ft, id)) {
+				cands = append(cands, id)
+			}
+		}
+		sort.Strings(cands)
+		if len(cands) > 0 {
+			id := cands[r.Intn(len(cands))]
+			idx := byTrip[id]
+			rows := make([][]string, len(idx))
+			for k, i := range idx {
+				rows[k] = stt.rows[i]
+			}
+			sort.Slice(rows, func(a, b int) bool { return atoiOr(rows[a][4], 0) < atoiOr(rows[b][4], 0) })
+			// largest first, the rest ascending
+			rot := append([][]string{rows[len(rows)-1]}, rows[:len(rows)-1]...)
+			for k, i := range idx {
+				stt.rows[i] = rot[k]
+			}
+			// the same arrangement in the feed without the rejected row
+			fidx := byTripRows(ft, id)
+			for k, i := range fidx {
+				ft.rows[i] = append([]string{}, rot[k]...)
+			}
+			bad := append([]string{}, rot[1]...)
+			bad[3] = r.Pick([]string{"", "NOPE"})
+			bad[4] = r.Pick([]string{"0", rot[1][4]})
+			pos := idx[0] + 1
+			stt.rows = append(stt.rows[:pos], append([][]string{bad}, stt.rows[pos:]...)...)
+			inserted = append(inserted, map[string]any{"file": "stop_times.txt", "cause": "rejected-row-at-the-only-descent", "at": pos, "run": 1})
+		}
+	}
 	// the orphaned rows of a rejected trip: a trips.txt row that is rejected (unknown route) and several
 	// stop_times / frequencies rows that name it, placed after rows of a valid trip
 	if r.P(1, 3) {
@@ -564,4 +606,23 @@ func maxInt(a, b int) int {
 		return a
 	}
 	return b
+}
+
+// byTripRows: the positions of a trip's rows in stop_times.txt
+func byTripRows(t *table, id string) []int {
+	var out []int
+	for i, row := range t.rows {
+		if row[0] == id {
+			out = append(out, i)
+		}
+	}
+	return out
+}
+
+func atoiOr(s string, d int) int {
+	n, err := strconv.Atoi(s)
+	if err != nil {
+		return d
+	}
+	return n
 }
